@@ -67,7 +67,7 @@ pub fn rand_format(rng: &mut Rng) -> String {
     const PIECES: &[&str] = &["%p", "%P", "%f", "%h", "%s", "%U", "%G", "%m", "%n", "%i", "%b", "%k", "%u", "%g",
         "%a", "%c", "%t", "%A@", "%TY", "%CH", "%y", "%%", "%{fid}", "%{projid}", "%{stripe-count}", "%{stripe-size}",
         "%{mirror-count}", "%{xattr:foo}", "%S", "%H", "\\n", "\\t", "\\\\", "\\0", "\\101", "\\a", "\\r", "\\v", "\\b", "\\f",
-        "abc", " ", ",", ":", "x", "-", "\\q", "%d", "%D", "%F", "%l", "%M", "%Y", "%Z", "\\c", "~", "~a"];
+        "abc", " ", ",", ":", "x", "-", "\\q", "\\012", "\\033", "\\0", "\\007x", "%d", "%D", "%F", "%l", "%M", "%Y", "%Z", "\\c", "~", "~a"];
     let n = 1 + rng.below(6);
     let mut s = String::new();
     for _ in 0..n {
@@ -454,7 +454,7 @@ pub fn rand_chain(rng: &mut Rng, n: usize) -> Expression {
     let mut items: Vec<Expression> = vec![];
     for i in 0..n {
         let r = rng.below(12);
-        let idx = if rng.chance(1, 5) && i > 0 { rng.below(i) } else { i };   // repeat an earlier resource sometimes
+        let idx = if rng.chance(1, 8) && i > 0 { rng.below(i) } else { i };   // repeat an earlier resource sometimes
         let e = match r {
             0 | 1 => E::Action(Action::FilePrint(format!("f{}", idx))),
             2 => E::Action(Action::FilePrintNull(format!("f{}", idx))),
@@ -475,8 +475,12 @@ pub fn rand_chain(rng: &mut Rng, n: usize) -> Expression {
     if !items.iter().any(|e| matches!(e, E::Action(Action::FilePrint(_)) | E::Action(Action::FilePrintNull(_)) | E::Action(Action::FilePrintFormatted(_, _)) | E::Action(Action::PrintNull))) {
         items.push(E::Action(Action::PrintNull));
     }
-    let mut it = items.into_iter();
-    let mut acc = it.next().unwrap();
-    for e in it { acc = op(Operator::And(acc, e)); }
-    acc
+    // a balanced AND tree: same left-to-right order of first occurrences, but a nesting depth that the
+    // JSON reader on the TLC side accepts (gson stops at 255 levels)
+    fn balanced(items: &[Expression]) -> Expression {
+        if items.len() == 1 { return items[0].clone(); }
+        let mid = items.len() / 2;
+        op(Operator::And(balanced(&items[..mid]), balanced(&items[mid..])))
+    }
+    balanced(&items)
 }
